@@ -59,6 +59,20 @@ End PevalLists.
 Lemma pv_some rho e x : pv rho e = Some x -> peval rho e = Ok x.
 Proof. unfold pv. destruct (peval rho e); intro H; inversion H; reflexivity. Qed.
 
+(* an expression the emitter treats as a C string literal (or a choice between two) denotes a string *)
+Lemma charp_src_str rho e : forall y, charp_src e = true -> peval rho e = Ok y -> is_strv y = true.
+Proof.
+  induction e using pexpr_ind'; intros y Hc Hp; try discriminate Hc.
+  - cbn in Hp. inversion Hp. reflexivity.
+  - cbn [charp_src] in Hc. apply andb_true_iff in Hc as [Ha Hb].
+    rewrite peval_if in Hp.
+    match type of Hp with context [peval rho ?c0] => destruct (peval rho c0) as [cv|]; [|discriminate Hp] end.
+    cbn [bind] in Hp. destruct (truthy cv); eauto.
+  - rewrite peval_joined in Hp.
+    match type of Hp with context [joined' rho ?l] => destruct (joined' rho l); [|discriminate Hp] end.
+    cbn [bind] in Hp. inversion Hp. reflexivity.
+Qed.
+
 (* ---- static type of the result of an operator ---- *)
 Lemma int_op_tag k x y w : int_op k x y = COk w -> tag_of w = TInt.
 Proof.
@@ -251,6 +265,20 @@ Section Preserve.
     split; [exact Hrf|].
     destruct (bin_form op) as [[kind tok]|] eqn:Ef; [|discriminate Ht].
     pose proof (bin_form_in _ _ Ef) as Hin.
+    destruct (add_wrap op a b) eqn:EW.
+    { (* "lit" + "lit": the left operand is wrapped as String(...) *)
+      assert (op = Add) by (destruct op; try discriminate EW; reflexivity). subst op.
+      destruct (bin_table _ _ _ KAdd Hin eq_refl) as [-> Hbt]. inversion Ht; subst c; clear Ht.
+      unfold bin_guard in Hbg. destruct (is_numv x && is_numv y) eqn:En.
+      - cbn [add_wrap] in EW. apply andb_true_iff in EW as [EWa _].
+        pose proof (charp_src_str _ _ _ EWa Ex) as Hsx. destruct x; discriminate.
+      - apply andb_true_iff in Hbg as [Hbg _]. apply andb_true_iff in Hbg as [Hsx Hsy].
+        destruct x; try discriminate Hsx. destruct y; try discriminate Hsy.
+        cbn in Hp. inversion Hp; subst v.
+        exists (CStr (s0 ++ s1)). cbn [ceval ctype]. rewrite Hbt, Hca. cbn [cbind]. rewrite Hcb. cbn [cbind].
+        rewrite (sty_of _ _ _ Ha' Eta), (sty_of _ _ _ Hb' Etb).
+        destruct wa; cbn in Hra; try contradiction; destruct wb; cbn in Hrb; try contradiction; subst;
+          cbn; repeat split; reflexivity. }
     (* which form the operator must have: infix with a known C++ operator, or a helper template *)
     assert (Hform : (exists k, kop op = Some k) \/ (exists md, hop op = Some md /\ is_numv x && is_numv y = true)).
     { unfold bin_guard in Hbg. destruct (is_numv x && is_numv y) eqn:En.
@@ -541,7 +569,7 @@ Section Preserve.
       unfold wt, sty in Hw. rewrite Ht0 in Hw. cbn [ctype] in Hw. rewrite Hta in Hw.
       split; [exact Hrf|]. exists (CInt z). cbn [ceval ctype]. rewrite Hca, Hta. cbn [cbind].
       destruct wa; cbn in Hra; try contradiction; subst s0;
-      (destruct (match a' with CStrLit _ => true | _ => false end);
+      (destruct (charp_src a);
        cbn [tag_of is_strty as_text] in *; try discriminate Hw;
        rewrite Hatol, (fits_mkint _ Hrf); cbn [cbind]; repeat split; try reflexivity; auto).
     - (* int(<number>) : static_cast<int> *)
